@@ -190,7 +190,9 @@ pub fn ls_check(id: &str) -> Option<LsCheck> {
             profile: Profile {
                 name: "admission-in-the-cache",
                 cap: Cap::Tight,
-                ttl_pct: 10,
+                ttl_pct: 30,
+                periodic_pct: 40,
+                big_advances: false,
                 buffer_items: vec![0, 1, 2, 3],
                 num_counters: vec![16, 64],
                 w: w(|w| {
@@ -200,11 +202,13 @@ pub fn ls_check(id: &str) -> Option<LsCheck> {
                     w.remove = 3;
                     w.clear = 1;
                     w.umc = 2;
+                    w.adv = 18;
+                    w.tick = 8;
                 }),
                 len: (12, 80),
                 ..d
             },
-            quick: 16_000,
+            quick: 24_000,
             thorough: 300_000,
             rule: "lock-step cases with tight capacity, mixed costs and popularity shaped by lookups through the real ring buffer and the parked policy worker: what the policy decides must be carried out by the processor (room => admitted and nothing evicted; every victim leaves the store and reaches on_evict, also when the newcomer is rejected in a later round; a rejected newcomer reaches on_reject); non-trivial = an admission with eviction or an evict-then-reject decision; distinct by case hash",
             nontrivial: |f| f.admissions_with_eviction > 0 || f.evict_then_reject > 0,
